@@ -366,12 +366,15 @@ pub fn propagate_comparison(
                 // TODO: Propagation is not possible until we support interval sets.
                 Ok(None)
             }
-            Operator::Gt => satisfy_greater(right_child, left_child, false),
-            Operator::GtEq => satisfy_greater(right_child, left_child, true),
-            Operator::Lt => satisfy_greater(left_child, right_child, false)
+            // `satisfy_greater(x, y, ..)` returns the new `(x, y)`; the result of this
+            // function is `(left, right)`, so the tuple must be reversed exactly when
+            // the children were passed in reverse order.
+            Operator::Gt => satisfy_greater(right_child, left_child, false)
                 .map(|t| t.map(reverse_tuple)),
-            Operator::LtEq => satisfy_greater(left_child, right_child, true)
+            Operator::GtEq => satisfy_greater(right_child, left_child, true)
                 .map(|t| t.map(reverse_tuple)),
+            Operator::Lt => satisfy_greater(left_child, right_child, false),
+            Operator::LtEq => satisfy_greater(left_child, right_child, true),
             _ => internal_err!(
                 "The operator must be a comparison operator to propagate intervals"
             ),
